@@ -1,9 +1,9 @@
 (* C05, second sentence, as ONE theorem about the composition broker + eager client + Uist server + Uist exchange for an ARBITRARY client of the broker (Model/BrokerSys.v: deposits, withdrawals, liquidations, orders of all six types, checks, in any order). `outstanding y` are this broker's orders the exchange still holds (resting book, then buffer); `signed_outstanding y s` their signed quantity for symbol s. [R]. *)
-From Coq Require Import ZArith NArith List Bool String Reals.
+From Coq Require Import ZArith NArith List Bool String Reals Floats.
 From Flocq Require Import Raux.
 From Alator Require Import Model.Num Model.Quirks Model.Cost Model.Exchange Model.Uist Model.Server Model.Broker
   Model.Strategy Model.BrokerSys Proofs.ServerProofs Proofs.ExchangeProofs Proofs.BrokerLedgerProofs Proofs.EndToEnd05
-  Proofs.EndToEnd04.
+  Proofs.EndToEnd04 Proofs.EndToEndExamples.
 Import ListNotations.
 Local Existing Instance RNum.
 
@@ -71,6 +71,37 @@ Theorem c05s_holdings_from_exchange_log :
            no_zero (b_holdings (bs_brkr y')) /\ keys_nodup (b_holdings (bs_brkr y')).
 Proof. exact @c05_holdings_from_exchange_log. Qed.
 
+(* Non-vacuity, kernel-evaluated at the IEEE instance: a fresh backtest over a Penelope-loaded dataset, a deposit, two offsetting resting limit orders and a market buy, two checks — pending nets to +3 with three orders outstanding, then 0 with the entry gone while two still rest; the trade is in both logs. *)
+Theorem c05s_example :
+  @bind (bsys float) (smap float * nat) (@bs_run float FNx clean ex_b0 ex_ops1)
+           (fun y : bsys float =>
+            @Ok (smap float * nat)
+              (pend_of y, @Datatypes.length (uorder float) (@outstanding float y))) =
+         @Ok (list (string * float) * nat) ([("BCD", 3%float)], 3) /\
+         @bind (bsys float) (smap float * list (otype * float) * smap float * float * nat * nat)
+           (@bs_run float FNx clean ex_b0
+              (ex_ops1 ++ [@BSCheck float [1; 0; 2] []; @BSCheck float [] ["BCD"]]))
+           (fun y : bsys float =>
+            @Ok (smap float * list (otype * float) * smap float * float * nat * nat)
+              (pend_of y, out_of y, @b_holdings float (@bs_brkr float y),
+               @b_cash float (@bs_brkr float y),
+               @Datatypes.length (trade float) (@b_log float (@bs_brkr float y)),
+               match
+                 @nlookup (backtest (uexch float))
+                   (@backtests (uexch float) (quotes (quote float)) (@bs_app float y)) 0
+               with
+               | Some b =>
+                   @Datatypes.length (trade float)
+                     (@xlog (uorder float) (trade float) (@bt_exch (uexch float) b))
+               | None => 99
+               end)) =
+         @Ok
+           (list (string * float) * list (otype * float) * list (string * float) * float * nat *
+            nat)
+           ([], [(LimitSell, 10%float); (LimitBuy, 10%float)], [("BCD", 3%float)], 9970%float, 1,
+            1).
+Proof. exact @c05_pending_observed_at_floats. Qed.
+
 (* holdings-with-pending is holdings plus that signed quantity, and just the holdings for a symbol with nothing outstanding. *)
 Theorem c05s_with_pending :
   forall (y : bsys R) (s : string),
@@ -93,4 +124,5 @@ Print Assumptions c05s_pending_end_to_end.
 Print Assumptions c05s_pending_from_fresh.
 Print Assumptions c05s_log_is_exchange_log.
 Print Assumptions c05s_holdings_from_exchange_log.
+Print Assumptions c05s_example.
 Print Assumptions c05s_with_pending.
